@@ -12,7 +12,7 @@ from mc.par import Result
 
 LEVEL = "exploration"
 
-KINDS = ["snv", "ins", "del", "hom0", "hom1", "miss", "partial", "multi", "sym", "dup", "noalt", "prePS", "preHP", "multiP", "noaltP"]
+KINDS = ["snv", "ins", "del", "hom0", "hom1", "miss", "partial", "multi", "sym", "dup", "noalt", "prePS", "preHP", "multiP", "noaltP", "mnp"]
 SAMPLES = ["S1", "S2", "S3"]
 NPROFILES = 5
 
@@ -31,6 +31,10 @@ def record_spec(seq, pos, kind, prev):
     if kind == "del":
         v = synth.make_variant(seq, pos, "DEL", 2)
         return pos, v.ref, v.alts, (0, 1)
+    if kind == "mnp":
+        # two-base substitution; its first ALT base is the ALT of a "dup" SNV record that may follow on the same POS
+        n_ = seq[pos + 1]
+        return pos, b + n_, [synth.other_base(b, 2) + synth.other_base(n_)], (0, 1)
     if kind in ("multi", "multiP"):
         return pos, b, [o, synth.other_base(b, 2)], None
     if kind == "sym":
@@ -46,7 +50,7 @@ def s1_gt(kind):
     return {
         "snv": "0/1", "ins": "0/1", "del": "0/1", "hom0": "0/0", "hom1": "1/1", "miss": "./.", "partial": "0/.", "multi": "1/2",
         "sym": "0/1", "dup": "0/1", "noalt": "0/0", "prePS": "0|1", "preHP": "0/1",
-        "multiP": "1|2", "noaltP": "0|0",  # records the tool never phases itself, phased in the input
+        "multiP": "1|2", "noaltP": "0|0", "mnp": "0/1",  # records the tool never phases itself, phased in the input
     }[kind]
 
 
